@@ -26,6 +26,7 @@ type detCase struct {
 	Cfg   treeCfg    `json:"cfg"`
 	Page  string     `json:"page"`
 	Steps []string   `json:"steps"` // kind "seq": sources rendered one after the other in this process
+	ExpOk []bool     `json:"expok"` // kind "seq": does step k render (true) or fail (false), whatever ran before
 	Tags  []string   `json:"tags"`
 }
 
@@ -58,6 +59,10 @@ func detOnce(c detCase) (sig string, err error) {
 			sig := "OUT " + out
 			if rerr != nil {
 				sig = "ERR " + rerr.Error()
+			}
+			if i < len(c.ExpOk) && c.ExpOk[i] != (rerr == nil) {
+				return fmt.Sprintf("DIFFERS step %d: %q %s here; rendered first in a fresh process it %s", i+1, src,
+					map[bool]string{true: "renders", false: "fails"}[rerr == nil], map[bool]string{true: "renders", false: "fails"}[c.ExpOk[i]]), nil
 			}
 			if prev, ok := seen[src]; ok && prev != sig {
 				return fmt.Sprintf("DIFFERS step %d: %q gave %q before and %q now", i+1, src, prev, sig), nil
